@@ -3,7 +3,7 @@ import re
 
 import anchors
 from core import (BA, call_matches, callee_paths, op_local, op_place, op_const, const_int, const_str, place_fields,
-                  str_consts, dyn_key)
+                  str_consts, dyn_key, closure_sites, taint)
 from facts import strip_generics
 from rules import common, sqlc
 
@@ -31,15 +31,44 @@ def _private(prog, key):
     return f is not None and f["vis"] not in ("pub", "crate")
 
 
+def closure_confinement(prog, key):
+    """For a closure / coroutine body `key`: (parent body key, problem text or None).
+
+    A closure has no visibility of its own: it can only be *made* where it is written, so what replaces "private and
+    called directly" for it is confinement to its lexical parent - every construction site is in the parent body and
+    the closure value leaves that body neither through the return place nor through a parameter (it may be handed
+    to a callee: whatever runs it, the parent was entered first and built it). (None, None) when `key` is not a
+    closure body."""
+    b = prog.bodies.get(key)
+    if b is None or not b.parent or not (b.kind == "Closure" or b.coroutine or "{closure#" in key.rsplit("::", 1)[-1]):
+        return None, None
+    pk = strip_generics(b.parent)
+    made = [(x.key, s) for x in prog.bodies.values() for s in closure_sites(x, key)]
+    if not made:
+        return pk, "%s is never constructed: the path from ProcessTransaction::write to the SQL is gone" % key
+    if pk not in prog.bodies and len({k for k, _ in made}) == 1:
+        pk = made[0][0]             # the lexical parent was a helper that canon.py spliced into its only user
+    parent = prog.bodies.get(pk)
+    if parent is None:
+        return pk, "%s: the body that builds this closure is not available" % key
+    if any(k != pk for k, _ in made):
+        return pk, "%s is constructed outside its parent (%s)" % (key, sorted({k for k, _ in made if k != pk}))
+    tl = taint(parent, seeds={s[2] for _, s in made}, mode="direct")
+    if 0 in tl or any(1 <= l <= parent.arg_count for l in tl):
+        return pk, "%s escapes %s (returned or stored through a parameter): it can run record-writing SQL after ProcessTransaction::write was left" % (key, pk)
+    return pk, None
+
+
 def writer_funnel(prog, cg, depth=4):
     """WHO(record-writing SQL) as a funnel, independent of how many private layers the writer has.
 
     The *primitive writers* are the bodies that execute SQL directly and are not in the audited table (today
     `ProcessState::write`; after inlining it, `ProcessTransaction::write` itself). From every primitive the callers
     are followed upwards; the walk must end in `ProcessTransaction::write` (WRITE) having met only private functions
-    that are called directly (never address-taken) - i.e. WRITE is the only door to record-writing SQL.
-    Returns (members, problems): members = [(key, role)] with role 'primitive' / 'layer' / 'door' in discovery order,
-    problems = [(key, text)]."""
+    that are called directly (never address-taken), or closures confined to the body that builds them
+    (closure_confinement; the walk continues at that body) - i.e. WRITE is the only door to record-writing SQL.
+    Returns (members, problems): members = [(key, role)] with role 'primitive' / 'layer' / 'closure' / 'door' in
+    discovery order, problems = [(key, text)]."""
     ex = sql_executors(prog)
     prims = sorted(k for k in ex if k not in AUDITED_EXECUTORS)
     members, problems = [], []
@@ -52,6 +81,16 @@ def writer_funnel(prog, cg, depth=4):
         seen.add(k)
         if k == WRITE:
             members.append((k, "door"))
+            continue
+        pk, cprob = closure_confinement(prog, k)
+        if pk is not None:
+            members.append((k, role if role == "primitive" else "closure"))
+            if cprob:
+                problems.append((k, cprob))
+            elif d >= depth:
+                problems.append((k, "more than %d layers between the SQL and ProcessTransaction::write" % depth))
+            else:
+                todo.append((pk, "layer", d + 1))
             continue
         members.append((k, role))
         if not _private(prog, k):
@@ -92,31 +131,44 @@ def txn_sites(prog):
     return sorted(out, key=lambda x: (x[0].key, x[1]))
 
 
-def from_name_write_guarded(prog):
-    """In File::from_name the insert is dominated by `allow_add == true` (parameter 3)."""
+def from_name_add_param(prog):
+    """The `allow_add` parameter of File::from_name by role: the number (1-based) of a bool parameter such that every
+    *feasible* path (core.FA) from entry to an insert (ProcessTransaction::write) takes the true edge of a test of that
+    parameter, or None. Feasible paths, because the flag may be turned into an enum / a local first and re-tested
+    later (`let on_missing = if allow_add {Insert} else {Fail}; .. if let Fail = on_missing {return ..}`): the block
+    paths through the join do not exist. Independent of the parameter's position and name."""
+    from core import FA
     fn = prog.one(r"state::File::from_name")
     ba = BA.of(fn)
+    fa = FA.of(fn)
     ws = ba.calls(re.escape(WRITE))
-    ok = False
+    if not ws:
+        return None
     for sw in sorted(ba.live):
         bs = ba.bool_switch(sw)
         if not bs:
             continue
         t_t, f_t, (kind, info) = bs
-        if kind == "place" and not info["p"] and info["l"] == 3:
-            ok = bool(ws) and all(ba.edge_dominates((sw, t_t), w) for w in ws)
-    return ok
+        if kind == "place" and not info["p"] and 1 <= info["l"] <= fn.arg_count and fn.locals[info["l"]] == "bool" and t_t != f_t:
+            if all(fa.edge_dominates((sw, t_t), w) for w in ws) and any(w in fa.live for w in ws):
+                return info["l"]
+    return None
+
+
+def from_name_write_guarded(prog):
+    """In File::from_name the insert happens only when the `allow_add` parameter is true (from_name_add_param)."""
+    return from_name_add_param(prog) is not None
 
 
 def no_add_filter(prog):
-    """site_filter that drops calls `File::from_name(_, _, false)`: they cannot reach the insert."""
-    guarded = from_name_write_guarded(prog)
+    """site_filter that drops calls `File::from_name(.., allow_add = false)`: they cannot reach the insert."""
+    n = from_name_add_param(prog)
 
     def flt(body_key, bb, target, kind):
-        if not guarded or target != "state::File::from_name" or bb < 0:
+        if n is None or target != "state::File::from_name" or bb < 0:
             return True
         t = prog.bodies[body_key].blocks[bb]["term"]
-        c = op_const(t["args"][2]) if len(t["args"]) > 2 else None
+        c = op_const(t["args"][n - 1]) if len(t["args"]) >= n else None
         if c is not None and c.get("bool") is False:
             return False
         return True
